@@ -16,8 +16,40 @@ class PropBase:
             rep.violation(f"model and implementation disagree on {d[3]}: {ctx}",
                           {"property": self.id, "relation": "correspondence (impl output line = model output line)",
                            "context": ctx, "impl": d[1], "model": d[2], "ops": ops or []}, found_input=False)
-        self.panics(rep, impl, ctx, ops)
+        PropBase.panics(self, rep, impl, ctx, ops)
         return not ds
+
+    def generic_corr(self, rep, run, rng, tier, driver_ok):
+        """model/implementation correspondence on random histories under widely varied option sets - run by every check,
+        whatever its own scenarios are: a behavioural change somewhere else in the pipeline (an option that starts to
+        matter, a format handled differently) shows up here as a broken correspondence even if this property's own
+        generator does not go there"""
+        if not driver_ok:
+            return
+        import frames as F
+        n = 6 if tier == "quick" else 60
+        for h in range(n):
+            da = rng.choice([1, 2, 5, 60, 600])
+            opts = dict(use_update=bool(rng.randrange(2)), relaxed=bool(rng.randrange(2)), count=bool(rng.randrange(2)),
+                        filter=rng.choice([None, None, [17], [4, 5, 11, 17], [21, 20, 4], [0, 16, 18, 19, 24]]),
+                        delete_after=da, update=rng.choice([-1, 0, 3, 7, 100000, 2 ** 62]), show=int(rng.random() < 0.3),
+                        groups=rng.choice(["", "aAews", "we", "e"]), order=rng.choice(["", "sA", "Dv", "cN"]))
+            addrs = [0x4A0000 + rng.randrange(1 << 12) for _ in range(3)]
+            ops = ["reset", gen.cfg_op(**opts)]
+            for si in range(rng.randrange(4, 10)):
+                lines = []
+                for _ in range(rng.randrange(1, 16)):
+                    r = rng.random()
+                    if r < 0.08:
+                        lines.append(rng.choice([b"", b"junk", b"\xff\xfe", b"8D", b"F" * 27]))
+                    else:
+                        lines.append(gen.rand_frame(rng, rng.choice(gen.FORMATS), rng.choice(addrs)))
+                ops += [f"case g{h}.{si}"] + gen.seg(lines) + ["dump"]
+                ops.append("adv %d" % rng.choice([500, 1500, 9500, 10500, da * 1000 - 500, da * 1000 + 500]))
+            impl, _, model = run.execute(ops, model=True)
+            rep.evaluations += sum(1 for o in ops if o.startswith("line")); rep.traces += 1
+            rep.count("generic_corr_histories")
+            PropBase.corr(self, rep, impl, model, {"generic_history": h, "options": opts}, ops)
 
     def panics(self, rep, impl, ctx, ops=None):
         for l in impl:
